@@ -245,23 +245,45 @@ func (p tblsPartial) Verify(_ kyber.Point, m, sig []byte) error {
 	return p.ts.VerifyPartial(p.pub, m, append([]byte{byte(p.sh.I >> 8), byte(p.sh.I)}, sig...))
 }
 
+// c09TBLS: one threshold scheme VALUE serves one or two sharings.  The second sharing is a share
+// refresh (same secret, same threshold, new polynomial), a re-sharing with another threshold, or a
+// sharing of another secret; everything the first round asserts is asserted again, and partials of
+// the first sharing (valid under ITS public polynomial) are among the invalid ones of the second.
 func c09TBLS(t *rapid.T, ev *evProp) {
 	c := genCombo(t)
 	ts := c.tscheme()
 	n := rapid.IntRange(2, 8).Draw(t, "n")
 	th := rapid.IntRange(2, n).Draw(t, "t")
 	secret := genScalar(t, c.key, "secret")
+	msg := genMsg(t, 100)
+	stale := c09TBLSRound(t, ev, c, ts, n, th, secret, msg, "", nil)
+	if stale == nil || rapid.Bool().Draw(t, "one-sharing") {
+		return
+	}
+	mode := rapid.SampledFrom([]string{"refresh", "refresh", "other-t", "other-secret"}).Draw(t, "second")
+	switch mode {
+	case "other-t":
+		th = rapid.IntRange(2, n).Draw(t, "t2")
+	case "other-secret":
+		secret = genScalar(t, c.key, "secret2")
+	}
+	if rapid.Bool().Draw(t, "othermsg2") {
+		msg = genMsg(t, 100)
+	}
+	c09TBLSRound(t, ev, c, ts, n, th, secret, msg, " second-sharing="+mode, stale)
+}
+
+func c09TBLSRound(t *rapid.T, ev *evProp, c blsCombo, ts sign.ThresholdScheme, n, th int, secret SVal, msg []byte, round string, stale [][]byte) [][]byte {
 	pri := share.NewPriPoly(c.key.G, uint32(th), secret.S, xofStream(genSeed(t, "poly")))
 	pub := pri.Commit(c.key.G.Point().Base())
-	msg := genMsg(t, 100)
-	ctx := fmt.Sprintf("tbls %s t=%d n=%d secret=%s |msg|=%d", c.name, th, n, secret, len(msg))
+	ctx := fmt.Sprintf("tbls %s t=%d n=%d secret=%s |msg|=%d%s", c.name, th, n, secret, len(msg), round)
 	key := func(w string) string { return "C09/tbls/" + c.name + "/" + w }
 	partials := make([][]byte, n)
 	for i, s := range pri.Shares(uint32(n)) {
 		p, err := ts.Sign(s, msg)
 		if err != nil {
 			violationOrKnown(t, ev, key("sign"), "partial Sign failed: %v\n%s", err, ctx)
-			return
+			return nil
 		}
 		partials[i] = p
 		if err := ts.VerifyPartial(pub, msg, p); err != nil {
@@ -282,9 +304,20 @@ func c09TBLS(t *rapid.T, ev *evProp) {
 	// invalid partials of several kinds
 	other := append(append([]byte(nil), msg...), 0x55)
 	mkInvalid := func(label string) ([]byte, string) {
-		kind := rapid.SampledFrom([]string{"garbage", "short", "othermsg", "foreignvalue", "badindex", "bitflip"}).Draw(t, label+".kind")
+		kinds := []string{"garbage", "short", "othermsg", "foreignvalue", "badindex", "bitflip"}
+		if stale != nil {
+			kinds = append(kinds, "stale", "stale", "stale")
+		}
+		kind := rapid.SampledFrom(kinds).Draw(t, label+".kind")
 		i := rapid.IntRange(0, n-1).Draw(t, label+".i")
 		switch kind {
+		case "stale":
+			// a partial of the previous sharing on this scheme value; invalid now unless that share
+			// happens to be this sharing's share too (same secret, t = 1 is not generated)
+			if bytes.Equal(stale[i], partials[i]) {
+				return []byte{0, 0}, "short"
+			}
+			return append([]byte(nil), stale[i]...), kind
 		case "garbage":
 			return rapid.SliceOfN(rapid.Byte(), len(partials[0]), len(partials[0])).Draw(t, label+".raw"), kind
 		case "short":
@@ -353,7 +386,7 @@ func c09TBLS(t *rapid.T, ev *evProp) {
 	var rerr error
 	if pn := safely(func() { rec, rerr = ts.Recover(pub, msg, list, uint32(th), uint32(n)) }); pn != "" {
 		violationOrKnown(t, ev, "C04/tbls/"+c.name+"/recover-panic", "Recover panicked: %s\n%s", pn, ctx)
-		return
+		return nil
 	}
 	// the same list again: Recover must not have disturbed the caller's partials
 	var rec2 []byte
@@ -386,7 +419,8 @@ func c09TBLS(t *rapid.T, ev *evProp) {
 			prefix = false
 		}
 	}
-	ev.Case(!prefix, ctx, "tbls:"+c.name, fmt.Sprintf("tbls-enough:%v", nvalid >= th))
+	ev.Case(!prefix || stale != nil, ctx, "tbls:"+c.name, fmt.Sprintf("tbls-enough:%v", nvalid >= th), "tbls-sharing:"+strings.TrimSpace(round+" first")[:5])
+	return partials
 }
 
 // bdnCoefs: the BDN coefficients as specified: blake2s XOF over the concatenated public key
